@@ -339,7 +339,9 @@ impl FromStr for StatusCode {
     type Err = InvalidStatusCode;
 
     fn from_str(s: &str) -> Result<Self, Self::Err> {
-        Ok(Self(s.parse().map_err(|_| InvalidStatusCode)?))
+        s.parse::<u16>()
+            .map_err(|_| InvalidStatusCode)?
+            .try_into()
     }
 }
 
